@@ -167,7 +167,7 @@ def c20_run(c):
     hdir = os.path.dirname(os.path.dirname(c["exe"])) if False else None
     # harness source directory: the one the main build used
     src = os.path.join(c["build"], "alt-" + hashlib.sha1(c["repo"].encode()).hexdigest()[:8], "harness") if c["repo"] != "/repo" else os.path.join(c["verif"], "harness")
-    streams = "enc,rt,mut,rand,exh,decall,count,skip"
+    streams = "enc,rt,mut,rand,exh,decall,count,skip,big"
 
     def build(i):
         name, feats = cfgs[i]
@@ -258,7 +258,9 @@ PROPS = {
                         "leading_zeros is modelled as W - bitLen (Nat.log2)"],
     },
     "C01": {
-        "streams": ["enc", "big"],
+        "streams": ["enc", "big", "sinks"],
+        # bytes written by encode_to into any sink are part of C01's observation point
+        "also_oracles": ["C07"],
         "disagreement_is_violation": True,
         "rule": "enc requests (value text -> bytes) for every catalogue type (~270 instantiations: all primitives, compact, NonZero, Option/Result/OptionBool, all six collections, arrays, tuples to 18, String/Cow, Box/Rc/Arc, PhantomData, Duration, ranges, all bit stores x orders, Bytes, GenericArray, derived structs/enums incl. skip/compact/encoded_as/CompactAs/index attr/discriminant/recursive/transparent/generic) with boundary-biased values, plus vectors/deques/lists/sets whose lengths straddle k*16KiB/size_of. non-trivial = distinct request whose model answer is not `err`",
         "level_text": "Proved in Lean for every well-formed value of every modelled type (structural induction over the type descriptor, no size bound): the transliterated encode_to (bulk path for the 12 primitive element types, compact_encode_len_to(..).expect, bit-sequence re-chunking with zero padding for all stores/orders, enum index byte, transparent wrappers) produces exactly Spec.encode, the written-out SCALE format, and reaches no panic site. Spec.encode is pinned by the repository's own hex vectors (kernel-checked `decide` examples). The model is tied to the crate by running both on every catalogue type's generated values each run.",
